@@ -368,7 +368,19 @@ func genScale(rt *rapid.T) float64 {
 func genPoly(rt *rapid.T) *PolyCase {
 	a := genScale(rt)
 	pc := &PolyCase{}
-	switch kind := pickG(rt, "poly_kind", 9); kind {
+	switch kind := pickG(rt, "poly_kind", 10); kind {
+	case 9: // a (x-h)^3 + k: one real root h - cbrt(k/a), complex pair at 120 degrees around h (depressed linear term 0)
+		h := genRoot(rt, "h")
+		k := rapid.Float64Range(0.001, 30).Draw(rt, "k")
+		if rapid.Bool().Draw(rt, "k_neg") {
+			k = -k
+		}
+		if pickG(rt, "k_exact", 3) == 0 {
+			k = []float64{8, -8, 1, -1, 27, 0.125}[pickG(rt, "k_nice", 6)]
+		}
+		r := h - math.Cbrt(k)
+		pc.Kind, pc.Roots = "shifted-cube", []float64{r}
+		pc.Coeff = [4]float64{a * (k - h*h*h), 3 * a * h * h, -3 * a * h, a}
 	case 0, 1: // three real roots
 		r1, r2, r3 := genRoot(rt, "r1"), genRoot(rt, "r2"), genRoot(rt, "r3")
 		pc.Kind, pc.Roots = "three-real", []float64{r1, r2, r3}
@@ -573,7 +585,7 @@ func checkC20B(pc *PolyCase) (o *Outcome) {
 	if len(roots) == 0 && len(got) != 0 {
 		return o.failf("solve3(%v) = %v but the polynomial has no real root", pc.Coeff, got)
 	}
-	o.NonTrivial = (pc.Kind == "three-real" && distinct == 3) || pc.Kind == "one-real+complex-pair"
+	o.NonTrivial = (pc.Kind == "three-real" && distinct == 3) || pc.Kind == "one-real+complex-pair" || pc.Kind == "shifted-cube"
 	return o
 }
 
